@@ -9,7 +9,7 @@ CONSTANTS
   LockInOnce = FALSE
   Dev = {}
   MaxFaults = 6
-  Kinds = {"eof"}
+  Kinds = {"eof", "surplus"}
   OrderedStart = FALSE
   CancelCalls = {1, 2, 3, 4, 5, 6}
   EnvTClose = TRUE
